@@ -3,18 +3,18 @@ CONSTANTS
   Fix = {"tail", "suffix", "epoch"}
   Taints = {}
   GenMode = FALSE
-  MaxSkip = 0
+  MaxSkip = 1
   MaxOps = 3
   MaxPost = 1
   MaxRecs = 4
   MaxBatch = 2
   MaxEpoch = 2
   MaxHit = 3
-  MaxRecCrash = 1
+  MaxRecCrash = 0
   CapSet = {2}
-  RetSet = {0, 2}
+  RetSet = {0}
   CompactSet = {FALSE, TRUE}
-  AgeSet = {0, 3}
+  AgeSet = {0}
   Keys = {"a", "nil"}
 INVARIANTS NoLoop MemMatchesFiles
 PROPERTIES StepsOK
